@@ -36,8 +36,8 @@ def skeleton : List (String × List String) := [
   ("GetListener", [
     "lock", "read listener", "unlock", "return var nil"
   ]),
-  -- pc `listenSys`/`store` (activation or net listen; error ⇒ return; then the write of the field), called with the
-  -- mutex held by `bind`'s caller
+  -- part of the single step at pc `bindCheck` (activation or net listen; error ⇒ return; then the write of the field),
+  -- called with the mutex held by `bind`'s caller
   ("setListener", [
     "call activationListener", "if l==nil {", "if read protocol,read address&& {", "read address",
     "os.Remove", "}", "read protocol", "read address", "call listen", "if err!=nil {", "return var", "}",
@@ -53,14 +53,14 @@ def skeleton : List (String × List String) := [
   ("Bind", [
     "lock", "defer unlock", "return call bind"
   ]),
-  -- pcs `bindCheck` (read of running; refused ⇒ return WITHOUT teardown), `parse`, `listenSys`, `store`: all under the
-  -- caller's lock, so no other thread's step can fall between them
+  -- pc `bindCheck`, ONE step of the transition system: read of running (refused ⇒ return WITHOUT teardown), parse,
+  -- listen, store — all under the caller's lock, so no other thread's step can fall between them
   ("bind", [
     "if read running {", "return errorf", "}", "call parseAddress",
     "if err!=nil {", "return var", "}", "call setListener", "if err!=nil {", "return var", "}", "return nil"
   ]),
-  -- bind and `setRunning` (which reads l) in ONE critical section (error ⇒ unlock, return; the deferred teardown is
-  -- registered only afterwards); then the loop
+  -- pc `bindCheck` for a Listen call: bind, `running = true` and the read of l in ONE critical section = one step
+  -- (error ⇒ unlock, return; the deferred teardown is registered only afterwards); then the loop
   ("Listen", [
     "lock", "call bind", "if err!=nil {", "unlock", "return var", "}", "write running=true", "read listener",
     "unlock", "defer{", "call teardown", "wg.Wait", "}", "for call isRunning {", "if timeout!=0 {",
@@ -69,8 +69,8 @@ def skeleton : List (String × List String) := [
     "unlock", "continue", "}", "if !call isRunning {", "return nil", "}", "return var", "}", "lock",
     "inc conncounter", "unlock", "wg.Add", "go call handleConnection", "}", "return nil"
   ]),
-  -- deferred teardown registered first; `readLst` (nil ⇒ error, teardown runs) and `setRunning` in ONE critical
-  -- section; then the same loop as Listen
+  -- deferred teardown registered first; pc `readLst`: the listener read (nil ⇒ error, teardown runs) and
+  -- `running = true` in ONE critical section = one step; then the same loop as Listen
   ("DoListen", [
     "defer{", "call teardown", "wg.Wait", "}", "lock", "read listener", "if l==nil {", "unlock",
     "return errorf", "}", "write running=true", "unlock", "for call isRunning {", "if timeout!=0 {",
